@@ -220,16 +220,19 @@ abbrev Fwd := State → Frame → State
 def logAt (cfg : Cfg) (fwd : Fwd) (lvl : Nat) (s : State) : State :=
   if lvl ≥ cfg.logLevel then fwd s (logFrame cfg lvl) else s
 
+/-- the first half of `remove_module`: drop the subscriptions, leave the logger set, close the socket -/
+def removePrep (s : State) (u : Nat) (m : Module) : State :=
+  let s := { s with idx := m.subs.foldl (fun i t => idxDiscard i t u) s.idx,
+                    loggers := s.loggers.filter (· != u) }
+  let s := if m.closed then s else s.emit (.close u)
+  s.upd u (fun m => { m with closed := true, connected := false })
+
 /-- `remove_module` -/
 def removeModule (cfg : Cfg) (fwd : Fwd) (s : State) (u : Nat) : State :=
   match s.find u with
-  | none => s.crash "KeyError: remove_module of a module that is not in the table"
+  | none => s                                -- `if module.conn not in self.modules: return`
   | some m =>
-    let s := { s with idx := m.subs.foldl (fun i t => idxDiscard i t u) s.idx,
-                      loggers := s.loggers.filter (· != u) }
-    let s := if m.closed then s else s.emit (.close u)
-    let s := s.upd u (fun m => { m with closed := true, connected := false })
-    let s := fwd s (closedFrame cfg { m with connected := false })
+    let s := fwd (removePrep s u m) (closedFrame cfg { m with connected := false })
     { s with mods := s.mods.filter (·.uid != u) }
 
 /-- `send_failed_message` -/
